@@ -30,6 +30,8 @@ VERIF = os.path.dirname(os.path.abspath(__file__))
 REPO = os.environ.get("VERIF_REPO", "/repo")
 BUILD = os.environ.get("VERIF_BUILD", os.path.join(VERIF, "build"))
 JOBS = int(os.environ.get("VERIF_JOBS", "16"))
+HEAVY_JOBS = int(os.environ.get("VERIF_HEAVY_JOBS", "3"))
+HEAVY_SEM = threading.BoundedSemaphore(HEAVY_JOBS)
 MEM_GB = int(os.environ.get("VERIF_MEM_GB", "20"))
 
 GLIB_CFLAGS = subprocess.run(["pkg-config", "--cflags", "glib-2.0"], capture_output=True,
@@ -57,7 +59,7 @@ class Q:
                  instr=(), cbmc=(), tier="quick", required=True, timeout=None, entry="harness",
                  scaled=(), expect_fail=None, solver=None, native=False, note="",
                  repo_defs=None, leak=False, nowitness=False, pre=None, checks=True,
-                 lib_unwind_violation=False, unwind_fn=None, src_flags=None, extra_srcs=None, cache_harness=False):
+                 lib_unwind_violation=False, unwind_fn=None, src_flags=None, extra_srcs=None, cache_harness=False, heavy=False):
         self.name = name
         self.harness = harness
         self.srcs = list(srcs)
@@ -82,6 +84,7 @@ class Q:
         self.lib_unwind_violation = lib_unwind_violation
         self.src_flags = dict(src_flags or {})   # {repo-relative source: [extra compiler flags]} (paths may contain @wd)
         self.extra_srcs = list(extra_srcs or [])  # generated sources (paths may start with @wd/)
+        self.heavy = heavy                   # memory-hungry query: at most HEAVY_JOBS of these run at a time
         self.cache_harness = cache_harness   # harness object shared between queries with equal flags (no generated includes)
         self.unwind_fn = dict(unwind_fn or {})   # {function-name regex: bound} -> expanded to --unwindset per loop
         self.checks = checks            # False: functional query, CBMC's memory-safety/overflow instrumentation off
@@ -342,6 +345,13 @@ def load_known():
 
 
 def run_query(pid, q, tier, keep=False, verbose=False):
+    if q.heavy:
+        with HEAVY_SEM:
+            return run_query_(pid, q, tier, keep, verbose)
+    return run_query_(pid, q, tier, keep, verbose)
+
+
+def run_query_(pid, q, tier, keep=False, verbose=False):
     wd = os.path.join(BUILD, pid, q.name)
     if os.path.exists(wd):
         shutil.rmtree(wd)
